@@ -43,6 +43,15 @@ static int dec_buf(int k, ByteBuffer *b, uint64_t *raw) {
     default: { int64_t v = 0; int rc = varint_decode_s64(b, &v); *raw = (uint64_t)v; return rc; }
     }
 }
+// decode into a caller-chosen location (which may be part of the buffer that is being decoded: a frame parsed in place)
+static int dec_buf_into(int k, ByteBuffer *b, void *out) {
+    switch (k) {
+    case U32: return varint_decode_u32(b, (uint32_t *)out);
+    case S32: return varint_decode_s32(b, (int32_t *)out);
+    case U64: return varint_decode_u64(b, (uint64_t *)out);
+    default: return varint_decode_s64(b, (int64_t *)out);
+    }
+}
 static int dec_src(int k, Source *s, uint64_t *raw) {
     switch (k) {
     case U32: { uint32_t v = 0; int rc = varint_u32_from_source(s, &v); *raw = v; return rc; }
@@ -155,6 +164,20 @@ static bool check_string(int k, const uint8_t *s, size_t n, size_t prefixarg) {
     int rb = (total == 0) ? -1 : dec_buf(k, &b, &vb);
     OctSrc os{s, n, 0}; Source src; octet_source_init(&src, octsrc_cb, &os);
     int rs = dec_src(k, &src, &vs);
+    if (total && !FAST && n) {
+        // in place: the result variable is the memory the varint itself starts in (a receive frame overlaid with its parsed form). The buffer
+        // decoder reads all the octets it needs before it stores the result, so verdict, value and consumed count are those of a separate variable.
+        size_t w = k < 2 ? 4 : 8;
+        uint8_t *raw2 = (uint8_t *)malloc(total + 2 * 8 + w);
+        uint8_t *base = raw2 + ((8 - ((uintptr_t)(raw2 + prefix) & 7)) & 7);      // base + prefix is 8-aligned
+        memset(raw2, 0x80, total + 2 * 8 + w);
+        memcpy(base + prefix, s, n);
+        ByteBuffer b2; b2.data = base; b2.size = total; b2.used = space_style ? 0 : total; b2.offset = prefix;
+        int r2 = dec_buf_into(k, &b2, base + prefix);
+        uint64_t v2 = 0; if (w == 4) { uint32_t t32; memcpy(&t32, base + prefix, 4); v2 = t32; } else memcpy(&v2, base + prefix, 8);
+        if (r2 != rb || (rb > 0 && (v2 != vb || b2.offset != b.offset))) ok = F("in-place-differs", vp::fmt("decoding into the memory the varint starts in: rc=%d value=%llx offset=%zu; into a separate variable: rc=%d value=%llx offset=%zu", r2, (unsigned long long)v2, b2.offset, rb, (unsigned long long)vb, b.offset));
+        free(raw2);
+    }
     if (total == 0) rb = rs < 0 ? -1 : 0;   // a zero-size ByteBuffer cannot be constructed; nothing to compare
     {   // and through the C caller with file-static channel state: same verdict, value and consumed count as the harness's own source
         uint64_t v3 = 0; size_t c3 = 99; int r3 = vp_vstatic_decode(k, s, n, &v3, &c3);
